@@ -2,6 +2,7 @@
 from __future__ import annotations
 
 import os
+import collections
 import time
 import traceback
 from dataclasses import dataclass, field
@@ -99,21 +100,36 @@ def run_concrete(fn, valuation: dict, allowed_exc=()):
 
 def explore(name: str, fn, *, allowed_exc: tuple = (), max_paths: int = 20000, timeout_s: float = 600.0,
             query_timeout_ms: int = 60000, seed: int = 0, known=None, max_enum: int = 64,
-            loop_bound: int = 10000, max_samples: int = 3, replay: bool = True) -> LemmaResult:
+            loop_bound: int = 10000, max_samples: int = 3, replay: bool = True, stop_after_violations: int = 5) -> LemmaResult:
     """Explore all paths of harness `fn` symbolically.
 
     known: list of (clause, predicate_name|None) that are listed known findings for this lemma.
     """
     res = LemmaResult(name)
     t0 = time.time()
-    work: list[list] = [[]]
+    # pending decision prefixes. Mostly depth-first (newest first), but every 4th path is taken from the OLDEST pending
+    # prefix (usually the shallowest alternative): same set of paths on completion, and a violation that sits behind an
+    # early, rarely-taken choice is reached long before the exploration completes.
+    work: collections.deque = collections.deque([[]])
     known = known or []
+    it = 0
     while work:
         if res.paths >= max_paths or time.time() - t0 > timeout_s:
             res.truncated = True
             res.inconclusive.append(f"exploration budget exhausted ({res.paths} paths, {len(work)} pending)")
             break
-        prefix = work.pop()
+        if sum(1 for x in res.cex if x.reproduced and x.known is None) >= stop_after_violations:
+            # enough reproduced violations to report: the verdict cannot improve (exit 1 in any case)
+            res.truncated = True
+            res.inconclusive.append(f"exploration stopped after {stop_after_violations} reproduced violations ({res.paths} paths, {len(work)} pending)")
+            break
+        if len(res.inconclusive) >= 25:
+            # the lemma is inconclusive already; more of the same cannot change that
+            res.truncated = True
+            res.inconclusive.append(f"exploration stopped after 25 inconclusive paths ({res.paths} paths, {len(work)} pending)")
+            break
+        it += 1
+        prefix = work.popleft() if it % 4 == 0 else work.pop()
         c = Ctx(prefix, res.stats, timeout_ms=query_timeout_ms, seed=seed, max_enum=max_enum, loop_bound=loop_bound)
         c.known = known
         _ctx.set_ctx(c)
